@@ -68,6 +68,11 @@ type Prover struct {
 	writers  []ssa.Instruction
 	f        *fa
 	nodes    int // total search nodes used (reported)
+	karr     *karr
+	inKarr   bool
+	useKarr  bool // include the affine equalities of karr.go among the facts
+	noKarr   bool
+	phiB     []Poly
 }
 
 func NewProver(c *Ctx, fn *ssa.Function) *Prover {
@@ -837,16 +842,183 @@ func abs64(x int64) int64 {
 
 // Prove goal <= 0 at entry of block blk (after its phis).
 func (P *Prover) Prove(goal Poly, blk *ssa.BasicBlock) bool {
-	P.budget = P.Budget
-	P.splitAt = P.DProve
-	return P.prove(goal, blk, nil, nil, P.DProve)
+	return P.ProveWith(goal, blk, nil)
 }
 
 // ProveWith proves goal at blk under additional facts.
 func (P *Prover) ProveWith(goal Poly, blk *ssa.BasicBlock, extra []Poly) bool {
 	P.budget = P.Budget
 	P.splitAt = P.DProve
-	return P.prove(goal, blk, extra, nil, P.DProve)
+	if P.prove(goal, blk, extra, nil, P.DProve) {
+		return true
+	}
+	if P.inKarr || P.useKarr || P.noKarr || len(P.phisIn(goal)) == 0 && !P.mentionsLoopState(blk) {
+		return false
+	}
+	// second attempt with the affine equalities between loop counters (karr.go) and the constant
+	// bounds of phis (phiBounds) among the facts
+	P.useKarr = true
+	P.gen++
+	P.budget = P.Budget
+	res := P.prove(goal, blk, extra, nil, P.DProve)
+	P.useKarr = false
+	P.gen++
+	return res
+}
+
+// mentionsLoopState: blk lies inside some loop (is dominated by a block with an integer phi).
+func (P *Prover) mentionsLoopState(blk *ssa.BasicBlock) bool {
+	for x := blk; x != nil; x = x.Idom() {
+		for _, in := range x.Instrs {
+			phi, ok := in.(*ssa.Phi)
+			if !ok {
+				break
+			}
+			if isInt(phi.Type()) {
+				return true
+			}
+		}
+	}
+	return false
+}
+
+// phiBounds: constant bounds of integer phis by an interval iteration over the phi graph
+// (conditions ignored; x+c and x-c followed; everything else unbounded; widening after a few rounds).
+func (P *Prover) phiBounds() []Poly {
+	if P.phiB != nil {
+		return P.phiB
+	}
+	P.phiB = []Poly{}
+	type iv struct{ lo, hi int64 }
+	val := map[*ssa.Phi]iv{}
+	var phis []*ssa.Phi
+	for _, b := range P.fn.Blocks {
+		for _, in := range b.Instrs {
+			phi, ok := in.(*ssa.Phi)
+			if !ok {
+				break
+			}
+			if isInt(phi.Type()) && intBits(phi.Type()) == 64 {
+				phis = append(phis, phi)
+			}
+		}
+	}
+	var eval func(v ssa.Value, depth int) (iv, bool) // false = bottom (not yet known)
+	eval = func(v ssa.Value, depth int) (iv, bool) {
+		v = strip(v)
+		if c, ok := constInt(v); ok {
+			return iv{c, c}, true
+		}
+		switch x := v.(type) {
+		case *ssa.Phi:
+			if r, ok := val[x]; ok {
+				return r, true
+			}
+			for _, p := range phis {
+				if p == x {
+					return iv{}, false // tracked, not reached yet
+				}
+			}
+		case *ssa.BinOp:
+			if depth < 4 && (x.Op == token.ADD || x.Op == token.SUB) && intBits(x.Type()) == 64 {
+				if c, ok := constInt(strip(x.Y)); ok && c > -(1<<30) && c < 1<<30 {
+					if x.Op == token.SUB {
+						c = -c
+					}
+					r, ok := eval(x.X, depth+1)
+					if !ok {
+						return r, false
+					}
+					if isUnsigned(x.Type()) && c < 0 {
+						// an unsigned decrement wraps below zero: use a dominating guard  operand >= k
+						op := P.poly(x.X)
+						for _, f := range P.factsAt(x.Block()) {
+							d := f.add(op, 1) // f = k - operand  =>  d = k
+							if k, isC := d.isConst(); isC && k > r.lo {
+								r.lo = k
+							}
+						}
+						if r.lo+c < 0 {
+							return iv{0, maxI}, true
+						}
+					}
+					if r.lo != minI {
+						r.lo += c
+					}
+					if r.hi != maxI {
+						r.hi += c
+					}
+					return r, true
+				}
+			}
+		}
+		lo, hi := minI, maxI
+		if l, h, ok := P.rangeOf(v); ok {
+			lo, hi = l, h
+		}
+		return iv{lo, hi}, true
+	}
+	for round := 0; round < 12; round++ {
+		changed := false
+		for _, phi := range phis {
+			cur, have := val[phi]
+			nw, any := iv{maxI, minI}, false
+			for _, e := range phi.Edges {
+				r, ok := eval(e, 0)
+				if !ok {
+					continue
+				}
+				any = true
+				if r.lo < nw.lo {
+					nw.lo = r.lo
+				}
+				if r.hi > nw.hi {
+					nw.hi = r.hi
+				}
+			}
+			if !any {
+				continue
+			}
+			if have {
+				if cur.lo < nw.lo {
+					nw.lo = cur.lo
+				}
+				if cur.hi > nw.hi {
+					nw.hi = cur.hi
+				}
+				if round >= 6 { // widening
+					if nw.lo < cur.lo {
+						nw.lo = minI
+					}
+					if nw.hi > cur.hi {
+						nw.hi = maxI
+					}
+				}
+			}
+			if !have || nw != cur {
+				val[phi] = nw
+				changed = true
+			}
+		}
+		if !changed {
+			break
+		}
+	}
+	for _, phi := range phis {
+		r, ok := val[phi]
+		if !ok {
+			continue
+		}
+		tlo, thi, _ := typeRange(phi.Type())
+		p := P.poly(phi)
+		if r.hi < thi && r.hi != maxI {
+			P.phiB = append(P.phiB, p.add(constP(-r.hi), 1))
+		}
+		if r.lo > tlo && r.lo != minI {
+			P.phiB = append(P.phiB, p.scale(-1).add(constP(r.lo), 1))
+		}
+	}
+	return P.phiB
 }
 
 // Unreachable reports whether the facts dominating blk, together with the assumptions in extra
@@ -983,6 +1155,10 @@ func (P *Prover) prove1(goal Poly, blk *ssa.BasicBlock, extra []Poly, hyps []hyp
 		if h.blk == blk || h.blk.Dominates(blk) {
 			facts = append(facts, h.goal)
 		}
+	}
+	if P.useKarr && !P.inKarr {
+		facts = append(facts, P.karrFacts(blk)...)
+		facts = append(facts, P.phiBounds()...)
 	}
 	facts = P.resolveNeq(facts, 4)
 	// a disequality whose sign needs an inductive argument (first := -1; ...; if first != -1)
